@@ -7,14 +7,14 @@ from ..lemmas_tape import multi_root_lemmas
 F = ["zz_verif_tape.go", "zz_verif_wf.go", "zz_verif_t1.go"]
 
 
-def t1_lemmas(tier, sizes=None):
+def t1_lemmas(tier, sizes=None, stale=0):
     if sizes is None:
         sizes = range(4, 9) if tier == "quick" else range(4, 11)
     ls = []
     for mode in ("Advance", "AdvanceIter", "ForEach", "AdvanceInto"):
         for T in sizes:
-            ls.append(Lemma("T1.%s.T%d" % (mode, T), "verifHarness_T1_" + mode, F,
-                            splits=[{"T": T - 4, "nops": 1}], split_depth=(3 if T >= 9 else (2 if T >= 8 else 0)),
+            ls.append(Lemma("T1.%s.T%d%s" % (mode, T, ".staledst" if stale else ""), "verifHarness_T1_" + mode, F,
+                            splits=[{"T": T - 4, "nops": 1, "staledst": stale}], split_depth=(3 if T >= 9 else (2 if T >= 8 else 0)),
                             desc="walk every well-formed single-root tape of exactly T words (all shapes incl. NOP runs, "
                                  "symbolic scalar tags/payloads/string bytes) with %s and compare with the abstract document" % mode,
                             bound="tape = %d words, nesting <= 3, string values of 0 or 1 byte, all shapes" % T,
